@@ -476,6 +476,12 @@ def check(repo, rep, tier):
     rep.rule('R6.5', 'feature compatibility relations of UnaryFeature / TernaryFeature')
     ru.r_provider_typestate(repo, rep)
     ru.r_instantiation(repo, rep, 'R6.1')
+    # the patterns are given as text: what the matcher compares against is what Category.parse makes of "(b/c)|d" -- the
+    # tokeniser and the stack machine of the parser (rules of C05) are conditions of "| matches either slash"
+    from . import c05
+    cm_ = repo.module('depccg/cat.py')
+    c05.r_delimiters(cm_, rep, 'R6.1')
+    c05.r_associativity(cm_, rep, 'R6.1')
     files = ['depccg/grammar/en.py', 'depccg/grammar/ja.py']
     if tier == 'thorough':
         files = [f for f in repo.py_files('depccg') if not f.startswith(('depccg/allennlp', 'depccg/chainer'))]
